@@ -61,7 +61,7 @@ TARGETS = [
     ("chipfiring/CFGraph.py", "CFGraph", "is_loopless"), ("chipfiring/CFGraph.py", "CFGraph", "get_valence"), ("chipfiring/CFGraph.py", "CFGraph", "add_edge"),
     ("chipfiring/CFGraph.py", "CFGraph", "add_edges"), ("chipfiring/CFGraph.py", "CFGraph", "__init__"),
     ("chipfiring/CFiringScript.py", "CFiringScript", "__init__"), ("chipfiring/CFiringScript.py", "CFiringScript", "get_firings"), ("chipfiring/CFiringScript.py", "CFiringScript", "set_firings"),
-    ("chipfiring/CFiringScript.py", "CFiringScript", "update_firings"),
+    ("chipfiring/CFiringScript.py", "CFiringScript", "update_firings"), ("chipfiring/CFiringScript.py", "CFiringScript", "script"),
     ("chipfiring/CFConfig.py", "CFConfig", "get_out_degree_S"),
     ("chipfiring/CFOrientation.py", "CFOrientation", "set_orientation"), ("chipfiring/CFOrientation.py", "CFOrientation", "check_fullness"),
     ("chipfiring/CFOrientation.py", "CFOrientation", "get_in_degree"), ("chipfiring/CFOrientation.py", "CFOrientation", "get_out_degree"),
@@ -543,6 +543,10 @@ class Fn:
                 if tg.id in self.env: bad(s, "re-binding " + tg.id)
                 self.env[tg.id] = callee.rty; body = K(); self.pending = pre
                 return self.wrap("match %s_%s %s with PyExn _ => EXN_ | PyOk %s =>\n  %s end" % (self.cls, s.value.func.attr, " ".join(args), tg.id, body))
+            if isinstance(tg, ast.Name) and isinstance(s.value, ast.Dict) and not s.value.keys:
+                if tg.id in self.env: bad(s, "re-binding " + tg.id)
+                self.env[tg.id] = "dictZ"; body = K()
+                return "let %s := (@nil (nat * Z)) in\n  %s" % (tg.id, body)
             if isinstance(tg, ast.Name):
                 t, ty = self.expr(s.value); pre = self.pending; self.pending = []
                 if tg.id in self.env: bad(s, "re-binding " + tg.id)
@@ -709,6 +713,11 @@ class Fn:
             if tk != "key": bad(s)
             pre = self.pending; self.pending = []; body = K(); self.pending = pre
             return self.wrap("let %s := d_set %s [] %s in\n  %s" % (d, kx, d, body))
+        if isinstance(tg.value, ast.Name) and self.env.get(tg.value.id) == "dictZ" and op is None:
+            d = tg.value.id; v, tv = self.expr(value); kx, tk = self.expr(tg.slice)
+            if tv != "Z" or tk != "key": bad(s, "store into a local dictionary")
+            pre = self.pending; self.pending = []; body = K(); self.pending = pre
+            return self.wrap("let %s := d_set %s %s %s in\n  %s" % (d, kx, v, d, body))
         if isinstance(tg.value, ast.Subscript) and isinstance(tg.value.value, ast.Name) and self.env.get(tg.value.value.id) == "dictD" and op is None:
             d = tg.value.value.id; v, tv = self.expr(value); a, ta = self.expr(tg.value.slice); b, tb = self.expr(tg.slice)
             if tv != "Z" or ta != "key" or tb != "key": bad(s, "nested store into a local dictionary")
@@ -744,7 +753,7 @@ class Fn:
         n = self.node
         r_ = ast.unparse(n.returns) if n.returns is not None else ""
         self.opt_ret = {"typing.Optional[bool]": "optbool", "Optional[bool]": "optbool", "typing.Optional[typing.Tuple[str, str]]": "optpair", "Optional[Tuple[str, str]]": "optpair"}.get(r_)
-        if n.args.vararg or n.args.kwarg or n.args.kwonlyargs or n.decorator_list: bad(n, "signature")
+        if n.args.vararg or n.args.kwarg or n.args.kwonlyargs or [d_ for d_ in n.decorator_list if ast.unparse(d_) != "property"]: bad(n, "signature")      # (a property is a method without arguments)
         for a_, d_ in zip(n.args.args[len(n.args.args) - len(n.args.defaults):], n.args.defaults):
             # (a default only matters to callers that omit the argument; an Optional dictionary must default to None, its only other value being a dictionary)
             if a_.annotation is not None and "Optional" in ast.unparse(a_.annotation) and not (isinstance(d_, ast.Constant) and d_.value is None): bad(n, "default value of " + a_.arg)
